@@ -43,6 +43,9 @@ func randomConfig(g *vc.Rng, profile string, i int) config {
 			c.warnCap = 64
 		}
 	}
+	// one schedule in three: the network write is a step boundary of its own (everything the server can do with a
+	// message may then happen before its sender is back from WriteMsg)
+	c.wire = g.Intn(3) == 0
 	return c
 }
 
